@@ -453,7 +453,7 @@ func genLexerGrammar(r *rand.Rand, pkg string) (text string, opts map[string]boo
 	perm := r.Perm(len(lexRulePool))
 	n := 3 + r.Intn(12)
 	hasIdent := false
-	allowEmpty := r.Intn(8) == 0
+	allowEmpty := r.Intn(4) == 0
 	for _, i := range perm[:n] {
 		rule := lexRulePool[i]
 		if opts["scanBytes"] && (strings.Contains(rule, "\\p{") || strings.Contains(rule, "а-я") || strings.Contains(rule, "\\x{1F")) {
